@@ -243,7 +243,7 @@ def gen(R, tier):
         assert all(s['rel_v'] == s['rel'] for s in stereo)
         vfeats = set()
         text, info = molgen.build_cgsmiles(R, m, owner, kinds=('$', '><'), style=molgen.style_draw(R), feats=vfeats,
-                                           annot={i: 'x=%s' % c for i, c in chir.items()}, slash=slash)
+                                           annot={i: ('x=%s' if (i + v) % 3 else '1;%s') % c for i, c in chir.items()}, slash=slash)   # keyword or positional (weight;chirality) form
         if text is None or 'slash_on_ring_bond' in vfeats:
             continue
         # the reader (like pysmiles) keeps ONE mark per atom: the last one written next to it. For every
